@@ -329,6 +329,28 @@ func runWire(t *testing.T, scAny any, trace bool) *Outcome {
 				o.Vio("C08.backend-modified-while-read-only", "op="+c.Op, "modifying backend call %s(%s) by %s began while the read-only policy was in force", c.Op, c.Path, c.Task)
 			}
 		}
+		if sc.Kind == "C09" {
+			// no backend call begins while every policy possibly in force excludes every client of the run
+			for _, c := range w.FS.CallsSince(seq0) {
+				o.Tick()
+				pols := admissible(eras, c.Start, c.Start)
+				excluded := len(pols) > 0
+				for _, p := range pols {
+					for _, cl := range sc.Clients {
+						host, portStr, _ := net.SplitHostPort(cl.Addr)
+						var port int
+						fmt.Sscanf(portStr, "%d", &port)
+						if ipAllowed(p.Allowed, host) && !(p.Secure && port >= 1024) {
+							excluded = false
+						}
+					}
+				}
+				if excluded {
+					o.Vio("C09.backend-call-while-every-client-excluded", "op="+c.Op, "backend call %s(%s) by %s began while the only policy possibly in force excluded every client of the run (allowed %v, secure %v): a request admitted under the replaced policy was still being processed after the update had returned", c.Op, c.Path, c.Task, pols[0].Allowed, pols[0].Secure)
+					break
+				}
+			}
+		}
 		w.Stop()
 	})
 	o.finish(res, sc.Kind)
@@ -973,6 +995,36 @@ func genC09(r *simrt.Rand, tier string) any {
 	if r.Pct(40) {
 		sc.Admin = append(sc.Admin, C16Admin{AtUs: []int{0, 200, 5000}[r.Int(3)], Pol: pick(), ViaExport: r.Pct(50)})
 	}
+	if r.Pct(30) {
+		// lock-out motif: 2-3 clients, all admitted at first, keep sending well-formed calls while the
+		// administrator replaces the allow-list by one that excludes every one of them (or demands privileged
+		// ports, which none of them uses). Requests that overlap the update may be judged by either policy; once
+		// the update has returned, nothing is processed for these clients any more: no backend call begins.
+		sc.Sched = RandSched(r)
+		sc.Sched.Mask |= simrt.ClassUnlock
+		sc.Sched.HorizonS = 3600
+		sc.Cfg.MaxWorkers = 2 + r.Int(3)
+		sc.Pol = PolSpec{Allowed: [][]string{nil, {"10.0.0.0/8", "127.0.0.1"}}[r.Int(2)]}
+		out := PolSpec{Allowed: []string{"192.168.77.1"}}
+		addrs := []string{"10.0.0.7:900", "10.0.1.5:2000", "10.0.0.9:50000"}
+		if sc.Pol.Allowed == nil && r.Pct(30) {
+			out = PolSpec{Secure: true}
+			addrs = []string{"10.0.0.9:50000", "10.0.1.5:2000", "10.0.0.7:1024"}
+		}
+		sc.Clients = nil
+		for c, nc := 0, 2+r.Int(2); c < nc; c++ {
+			cl := WireClient{Addr: addrs[c]}
+			for i, n := 0, 6+r.Int(10); i < n; i++ {
+				wc := WireCall{Prog: nfsclient.ProgNFS, Vers: 3, Proc: []uint32{1, 3, 4, 6, 16, 17, 1, 3}[r.Int(8)], Target: r.Int(6), Seed: r.Uint64(), Flavor: 1, PauseUs: []int{0, 0, 20, 300, 900}[r.Int(5)]}
+				cl.Calls = append(cl.Calls, wc)
+			}
+			sc.Clients = append(sc.Clients, cl)
+		}
+		sc.Admin = []C16Admin{{AtUs: []int{100, 700, 2500, 6000}[r.Int(4)], Pol: out, ViaExport: r.Pct(30)}}
+		if r.Pct(50) {
+			sc.Stalls = []simfs.Fault{{Op: []string{"Lstat", "Stat", "OpenFile", "ReadDir", ""}[r.Int(5)], Nth: 1 + r.Int(10), Kind: "stall", Stall: time.Duration([]int{2, 40, 400, 1100}[r.Int(4)]) * time.Millisecond}}
+		}
+	}
 	return sc
 }
 
@@ -1082,7 +1134,7 @@ func init() {
 		Rule: "one case = 1-3 hostile connections each performing 2-7 actions from {valid call, two calls back to back, call split into up to 60 fragments incl. empty ones, two messages in one record, single bit flip, random bytes, fragment header declaring 2^31-1 bytes, credential length 2^32-1, truncated record followed by close, a record of 5-12 fragments of 512 KiB whose first fragment is a complete valid call (must be refused, never answered), READDIR/READDIRPLUS with cookies >= 2^63, 3-6 pipelined calls in one write}, under no, strict or per-operation rate limiting, plus one well-behaved probe connection, all interleaved by the random scheduler with arbitrary transport segmentation; network faults on half of the hostile connections: a client that pipelines 20-80 calls behind a 256-4096 byte window and does not read for 1-100 s (the server's writes block; what it reads afterwards must be an in-order duplicate-free prefix of the answers), client->server or server->client streams cut after 1-400 bytes (mid-record, mid-reply; lost replies on such a connection are not held against the server); oracle: no panic escapes any goroutine; every well-formed call is answered once, in order, with its XID (also on the probe connection afterwards); after an undecodable stream the server closes the connection within its read timeout (75 simulated s); runtime TotalAlloc growth while the server digests a hostile message stays below 8 MiB (judged in runs without megabyte-sized client traffic); after the last call nothing more arrives (a call is answered at most once); replies that do come decode strictly; non-trivial = every run; distinct by event digest",
 		Gen:  genC15, New: func() any { return &WireScn{} }, Run: runWire, Shrink: shrinkWire, Real: wireReal, Stubbed: seqStubbed})
 	Register(&Prop{ID: "C09", Level: "exploration",
-		Rule: "one case = one client from one of 9 peer addresses (IPv4, IPv6, IPv4-mapped, loopback; ports either side of 1024) sending 3-10 well-formed calls of any program/procedure to a server whose AllowedIPs is one of 14 lists (single addresses, CIDRs of prefix length 0,1,8,24,30,31,32,33(malformed), IPv6, IPv4-mapped, malformed entries, lists in which every entry is malformed, single IPv6 hosts) with Secure on/off, optionally switched to another such policy at runtime on the live connection through UpdatePolicyOptions or UpdateExportOptions; oracle: independent membership function (bit arithmetic over the normalised address); a peer excluded by every policy possibly in force gets MSG_DENIED (or is disconnected at accept time) and causes no backend call; a peer admitted by every such policy is never denied; non-trivial = every run; distinct by event digest. The input space (addresses x lists) is sampled.",
+		Rule: "one case = one client from one of 9 peer addresses (IPv4, IPv6, IPv4-mapped, loopback; ports either side of 1024) sending 3-10 well-formed calls of any program/procedure to a server whose AllowedIPs is one of 14 lists (single addresses, CIDRs of prefix length 0,1,8,24,30,31,32,33(malformed), IPv6, IPv4-mapped, malformed entries, lists in which every entry is malformed, single IPv6 hosts) with Secure on/off, optionally switched to another such policy at runtime on the live connection through UpdatePolicyOptions or UpdateExportOptions; oracle: independent membership function (bit arithmetic over the normalised address); a peer excluded by every policy possibly in force gets MSG_DENIED (or is disconnected at accept time) and causes no backend call; a peer admitted by every such policy is never denied; 30% of the cases are the lock-out motif: 2-3 clients, all admitted at first, keep sending GETATTR/LOOKUP/ACCESS/READ/READDIR(PLUS) calls (2-5 workers, optional backend stall of 2 ms-1.1 s, every interleaving incl. the windows after each unlock decided by the seeded scheduler) while the administrator installs an allow-list (or the secure-port rule) that excludes every one of them - requests overlapping the update may be judged by either policy, but once the update has returned no backend call begins any more; non-trivial = every run; distinct by event digest. The input space (addresses x lists) is sampled.",
 		Gen:  genC09, New: func() any { return &WireScn{} }, Run: runWire, Shrink: shrinkWire, Real: wireReal, Stubbed: seqStubbed})
 	Register(&Prop{ID: "C08", Level: "exploration",
 		Rule: "one case = 1-3 clients sending 4-13 calls biased to the 11 mutating procedures (well-formed, truncated, garbage and oversize arguments, arbitrary credentials) while an admin toggles ReadOnly 1-3 times at drawn instants, with a backend call stalled so that the switch lands inside a request, every interleaving decided by the random scheduler; monitors: no modifying backend call (write-mode open, write, truncate, create, remove, rename, mkdir, symlink, chmod, chown, chtimes) BEGINS while the read-only policy is certainly in force (from the return of update(ReadOnly=true) to the call of the next update); every mutating procedure sent and answered inside such an interval fails; ACCESS grants none of MODIFY/EXTEND/DELETE there; also evaluated for read-only set at construction; non-trivial = every run; distinct by event digest",
